@@ -263,7 +263,34 @@ func runInventoryCmd(args []string) {
 							isMap = r.Type != nil && isMapType(r.Type)
 						}
 						if isMap {
-							mapRanges = append(mapRanges, fmt.Sprintf("%s|%s|range|%s", rel, fn, exprText(fset, x.X)))
+							// fingerprint of the body: statements that leave the loop early (their effect depends on which
+							// entries came first) and the calls made through a keeper / store (effects that have to commute)
+							exits := 0
+							calls := map[string]bool{}
+							ast.Inspect(x.Body, func(m ast.Node) bool {
+								switch y := m.(type) {
+								case *ast.FuncLit:
+									return false
+								case *ast.ReturnStmt:
+									exits++
+								case *ast.BranchStmt:
+									if y.Tok == token.BREAK || y.Tok == token.GOTO {
+										exits++
+									}
+								case *ast.CallExpr:
+									t := exprText(fset, y.Fun)
+									if strings.HasPrefix(t, "k.") || strings.HasPrefix(t, "store.") || strings.HasPrefix(t, "vp.") || strings.HasPrefix(t, "m.") {
+										calls[t] = true
+									}
+								}
+								return true
+							})
+							var cl []string
+							for c := range calls {
+								cl = append(cl, c)
+							}
+							sort.Strings(cl)
+							mapRanges = append(mapRanges, fmt.Sprintf("%s|%s|range|%s exits=%d calls=%s", rel, fn, exprText(fset, x.X), exits, strings.Join(cl, ",")))
 						}
 					}
 					return true
